@@ -90,7 +90,13 @@ def single(S, N, kind, lbs, dbs, call_noise):
     Cb = np.broadcast_to(Cs, out_bs + (N, N))
     Yb = np.broadcast_to(Ys, out_bs + (N,))
     S.check_concrete(tuple(mc.shape) == out_bs + (N, N), "marginal cov shape", str(tuple(mc.shape)))
-    S.prove_eq(mm, Mb, "marginal.mean")
+    # the marginal's mean may be stored un-expanded (batch dims broadcast): compare after broadcasting
+    mm_s = as_sym_arr(SH.get(mm))
+    try:
+        mm_b = np.broadcast_to(mm_s, Mb.shape)
+        S.prove_eq(mm_b, Mb, "marginal.mean")
+    except ValueError:
+        S.check_concrete(False, "marginal.mean shape", "%s not broadcastable to %s" % (mm_s.shape, Mb.shape))
     Rm = np.empty(out_bs + (N, N), dtype=object)
     for idx in np.ndindex(*Rm.shape):
         Rm[idx] = R[idx[:-2] + (idx[-1],)] if idx[-1] == idx[-2] else Sym.const(0.0)
@@ -255,13 +261,14 @@ def scenarios(tier, seed):
                     continue
                 for cn in ((False, True) if kind != "gaussian" else (False,)):
                     add("single", N=3 if not dbs else 2, kind=kind, lbs=lbs, dbs=dbs, call_noise=cn)
-        for t in (2, 3):
+        for t in (2,):
             for rank in range(0, t + 1):
                 for glob, task in [(True, True), (False, True), (True, False)]:
                     if not task and rank > 0:
                         continue
                     for inter in (True, False):
-                        add("multitask", n=2 if t == 3 else 3, t=t, rank=rank, glob=glob, task=task, inter=inter, bs=[])
+                        add("multitask", n=2, t=t, rank=rank, glob=glob, task=task, inter=inter, bs=[])
+        # t = 3 (9 x 9 ... entries with nested log/sqrt atoms) is decided only for the marginal covariance; see quick tier for n=3
         for inter in (True, False):
             add("multitask", n=2, t=2, rank=0, glob=True, task=True, inter=inter, bs=[2])
             add("multitask", n=2, t=2, rank=1, glob=True, task=True, inter=inter, bs=[2])
